@@ -34,6 +34,9 @@ type dmScenario struct {
 	Direct bool          `json:"direct"`
 	// Mermaid: also draw the whole module with the Mermaid data-model generator (beyond the listed properties)
 	Mermaid bool `json:"mermaid"`
+	// Whole: also draw one diagram of the whole module (no project, one output file): references between
+	// applications then have both ends in the diagram
+	Whole bool `json:"whole"`
 }
 
 var (
@@ -297,6 +300,35 @@ func dmGenerate(m *sysl.Module, direct bool) (map[string]string, error, string) 
 	}
 }
 
+// dmGenerateWhole draws every application of the module into one diagram (the command without a project).
+func dmGenerateWhole(m *sysl.Module) (map[string]string, error, string) {
+	type res struct {
+		out map[string]string
+		err error
+		pan string
+	}
+	ch := make(chan res, 1)
+	go func() {
+		var r res
+		defer func() {
+			if p := recover(); p != nil {
+				r.pan = fmt.Sprint(p)
+			}
+			ch <- r
+		}()
+		logger := logrus.New()
+		logger.SetOutput(io.Discard)
+		p := &cmdutils.CmdContextParamDatagen{Direct: true, Output: "all.png", Title: "t", ClassFormat: "%(classname)"}
+		r.out, r.err = datamodeldiagram.GenerateDataModels(p, m, logger)
+	}()
+	select {
+	case r := <-ch:
+		return r.out, r.err, r.pan
+	case <-time.After(20 * time.Second):
+		return nil, nil, "timeout"
+	}
+}
+
 func runDataModel(in, out string, _ []string) error {
 	w, err := tr.NewWriter(out)
 	if err != nil {
@@ -396,6 +428,51 @@ func runDataModel(in, out string, _ []string) error {
 				}
 				w.Emit(begin)
 				w.Emit(ev)
+			}
+		}
+		if sc.Whole && pan == "" && err == nil {
+			all, allf := [][]string{}, [][]string{}
+			for _, app := range sortedAppNames(cr.m) {
+				if app == "Proj" {
+					continue
+				}
+				mt, mf := dmModel(cr.m, app)
+				all, allf = append(all, mt...), append(allf, mf...)
+			}
+			tid := sc.ID*10 + 8
+			begin := tr.Ev{"t": tid, "e": "begin", "scn": sc.ID, "app": "+", "mtypes": all, "mfields": allf}
+			wouts, werr, wpan := dmGenerateWhole(cr.m)
+			switch {
+			case wpan == "timeout":
+				w.Emit(begin)
+				w.Emit(tr.Ev{"t": tid, "e": "timeout"})
+			case wpan != "":
+				w.Emit(begin)
+				w.Emit(tr.Ev{"t": tid, "e": "panic", "msg": wpan})
+			case werr != nil:
+				w.Emit(begin)
+				w.Emit(tr.Ev{"t": tid, "e": "error", "msg": werr.Error()})
+			default:
+				txt, ok := wouts["all.png"]
+				d := dmParse(txt)
+				drawn := map[string]bool{}
+				for _, c := range d.Classes {
+					drawn[c[0]] = true
+				}
+				mt := [][]string{}
+				for _, t := range all {
+					if t[1] == "optional" {
+						if !drawn[t[0]] {
+							continue
+						}
+						t = []string{t[0], "alias"}
+					}
+					mt = append(mt, t)
+				}
+				begin["mtypes"] = mt
+				w.Emit(begin)
+				w.Emit(tr.Ev{"t": tid, "e": "diagram", "present": ok, "classes": d.Classes, "fields": d.Fields, "edges": d.Edges,
+					"unknown": d.Unknown, "undeclared": d.Undecl})
 			}
 		}
 		if sc.Mermaid && pan == "" && err == nil {
